@@ -382,6 +382,7 @@ def sub_case(case, split_idx):
 
 
 EXTRACT = {"error": None}
+DEVICE = {"error": None}
 CONSTS = {}
 
 
@@ -393,6 +394,14 @@ def evaluate(cases, stats=None):
         # observation point lost: the runner fell back to replicated statements; keep searching for a failing input
         EXTRACT["error"] = res["extract_error"]
     results = res["results"]
+    if res.get("small_sketch_error"):
+        # the small-sketch device (attributes set on a fresh instance) does not work on this tree: the runner used the
+        # default-size sketch for those tables instead, so they are judged with the real capacity (they stay warm)
+        DEVICE["error"] = res["small_sketch_error"]
+        for c in cases:
+            if c.get("smallcap") is not None:
+                c["smallcap"] = None
+                c.pop("sketch_p", None)
     if res.get("constants"):
         CONSTS.update(res["constants"])
     problems = [[] for _ in cases]
@@ -820,6 +829,12 @@ def check(run, replay):
     if EXTRACT["error"] and not run.violations:
         run.violation("broken-obligation", "translator:task_ranking annotation/histogram statements", found_input=False,
                       extra=EXTRACT["error"] + " (replicated statements used instead; no failing input found with them)")
+    run.oblige("instrumentation:small sketch (p/m/width/warmup_size set on a fresh HyperLogLog instance) behaves as a sketch",
+               DEVICE["error"] is None, DEVICE["error"] or "")
+    if DEVICE["error"] and not run.violations:
+        run.violation("broken-obligation", "instrumentation:small sketch device", found_input=False,
+                      extra=DEVICE["error"] + " (tables re-judged with the default-size sketch, scale cases unaffected; no failing "
+                      "input found)")
     run.oblige("correspondence:statistics of every history = model = specification of the concatenation", nviol == 0,
                "" if nviol == 0 else "%d disagreements" % nviol)
     run.oblige("correspondence:split independence observed on the implementation", "C13_split_indep" not in seen_obl)
